@@ -1,7 +1,6 @@
 SPECIFICATION Spec
 CONSTANTS
   MaxSigs = 4
-  Spaced = FALSE
   Tools = {"none", "key", "eth", "manual_ok", "manual_bad"}
 INVARIANT RefusesMalformed
 INVARIANT AcceptsWellFormed
